@@ -423,12 +423,14 @@ class kFlowDecomp(pathmodel.AbstractPathModelDAG):
             if not all(float(weight).is_integer() for weight in weights):
                 return False
             weights = [int(weight) for weight in weights]
+        else:
+            weights = [float(weight) for weight in weights]
 
         if len(paths) <= self.k:
             # If paths contains strictly less than self.k paths, 
             # then we add arbitrary paths (i.e. we repeat the first path) with 0 weights to reach self.k paths.
             paths += [paths[0] for _ in range(self.k - len(paths))]
-            weights += [0 for _ in range(self.k - len(weights))]
+            weights += [self.weight_type(0) for _ in range(self.k - len(weights))]
             # self._solution = {
             #     "paths": paths,
             #     "weights": weights,
